@@ -163,7 +163,8 @@ def main():
                 _ex = _cf.ThreadPoolExecutor(max_workers=1)
                 em_future = _ex.submit(enginem.run, prop, tier, seed, ws.dir, log, plan["engine_m"], deadline, 5)
                 nwork = max(2, (nwork or (core.NCPU - 2)) - (5 if "tofixed" in plan["engine_m"] else 2))
-            results = core.run_jobs(ws, features, [j for j in jobs if args.only != "enginem"], workers=nwork, deadline=deadline)
+            results = core.run_jobs(ws, features, [j for j in jobs if args.only != "enginem"], workers=nwork, deadline=deadline,
+                                    soft_deadline=t0 + 0.45 * budget)
 
         replayed = 0
         for r in results:
